@@ -23,6 +23,17 @@ func copyDir(src, dst string) error {
 // (entry missing / entry unreadable), wipe the workspace outputs and build again. The build
 // must terminate (no hang, no crash) and, when it exits 0, leave correct bytes.
 func RestoreFaultPart(run *report.Run, st *Setup, cases, faultsPerCase int, kinds map[string]bool, double bool) {
+	restoreFaultPart(run, st, cases, faultsPerCase, kinds, double, false)
+}
+
+// LostEntryPart is RestoreFaultPart restricted to entries that are simply gone (evicted, lost
+// in a crash, never uploaded): the build must re-execute what was lost - exit 0, reference
+// bytes, nothing stale or incomplete restored.
+func LostEntryPart(run *report.Run, st *Setup, cases, faultsPerCase int, kinds map[string]bool) {
+	restoreFaultPart(run, st, cases, faultsPerCase, kinds, true, true)
+}
+
+func restoreFaultPart(run *report.Run, st *Setup, cases, faultsPerCase int, kinds map[string]bool, double, onlyMissing bool) {
 	Parallel(cases, func(i int) {
 		r := rng.Derive(uint64(run.Seed), run.Prop+"-faults", fmt.Sprint(i))
 		pf := spec.DefaultProfile()
@@ -32,6 +43,8 @@ func RestoreFaultPart(run *report.Run, st *Setup, cases, faultsPerCase int, kind
 		for k, t := range s.Targets {
 			if k%2 == 0 {
 				t.Outs = append(t.Outs, spec.Out{Kind: "dir", Path: fmt.Sprintf("flt%d.d", k)})
+			} else if k%4 == 1 {
+				t.Outs = append(t.Outs, spec.Out{Kind: "dir", Path: fmt.Sprintf("dup%d.d", k)})
 			}
 		}
 		gcfg := randCfg(r)
@@ -84,7 +97,7 @@ func RestoreFaultPart(run *report.Run, st *Setup, cases, faultsPerCase int, kind
 				return
 			}
 			fkind := "missing"
-			if r.Chance(1, 3) {
+			if r.Chance(1, 3) && !onlyMissing {
 				fkind = "unreadable"
 			}
 			victims := []string{k}
